@@ -8,6 +8,8 @@ mod c04;
 mod c04s;
 mod c05;
 mod c06;
+mod c09;
+mod c10;
 mod c12;
 mod c13;
 mod c14;
@@ -16,6 +18,7 @@ mod c16;
 mod c17;
 mod plonkm;
 mod recm;
+mod starkm;
 mod tamper;
 
 use crate::core::*;
@@ -92,6 +95,8 @@ fn main() {
         "C04" => c04::run(&ctx),
         "C05" => c05::run(&ctx),
         "C06" => c06::run(&ctx),
+        "C09" => c09::run(&ctx),
+        "C10" => c10::run(&ctx),
         "C12" => c12::run(&ctx),
         "C13" => c13::run(&ctx),
         "C16" => c16::run(&ctx),
